@@ -1078,3 +1078,131 @@ Proof.
   2:{ intros x. unfold name_is, start_one. now destruct (waiting st x). }
   pose proof (find_in_nodup _ _ Hn Hin) as F0. rewrite F0. simpl. unfold start_one. now rewrite Hw.
 Qed.
+
+(** * Round "proofs": for ALL programs (Stop, re-added names, failing constructors, asynchronous starts)
+    what a started handler holds is the registrations of a PREFIX of the program *)
+Definition is_prefix {A} (p l : list A) : Prop := exists suf, l = p ++ suf.
+Lemma is_prefix_refl {A} (l : list A) : is_prefix l l.
+Proof. exists []. now rewrite app_nil_r. Qed.
+Lemma is_prefix_snoc {A} (p l : list A) x : is_prefix p l -> is_prefix p (l ++ [x]).
+Proof. intros [suf ->]. exists (suf ++ [x]). now rewrite app_assoc. Qed.
+
+Definition holds_prefix (ops : list op) (hs : hstate) : Prop :=
+  In (OAddHandler (hs_cfg hs)) ops /\
+  match hs_started hs with
+  | None => True
+  | Some s => exists pre0 o0 pre1 o1, is_prefix pre0 pre1 /\ is_prefix (pre0 ++ [o0]) ops /\ is_prefix (pre1 ++ [o1]) ops
+                /\ (o0 = OStart \/ o0 = OStartAsync) /\ (o1 = OStart \/ o1 = OSnap (h_name (hs_cfg hs)))
+                /\ s_chain s = regs_of pre1 /\ s_pubdecs s = pdecs_of pre0 /\ s_subdecs s = sdecs_of pre0
+  end.
+Definition pending_prefix (ops : list op) (p : N * (list N * list N)) : Prop :=
+  exists pre0, is_prefix (pre0 ++ [OStartAsync]) ops /\ snd p = (pdecs_of pre0, sdecs_of pre0).
+
+Record pinv (ops : list op) (st : rstate) : Prop := {
+  pi_h : Forall (holds_prefix ops) (handlers st);
+  pi_p : Forall (pending_prefix ops) (pending st);
+  pi_m : mws st = regs_of ops;
+  pi_pd : pubdecs st = pdecs_of ops;
+  pi_sd : subdecs st = sdecs_of ops;
+  pi_r : residue st = [] }.
+
+Lemma holds_prefix_snoc ops o hs : holds_prefix ops hs -> holds_prefix (ops ++ [o]) hs.
+Proof.
+  intros [Hin H]. split; [apply in_or_app; now left|]. destruct (hs_started hs); [|exact I].
+  destruct H as (p0 & o0 & p1 & o1 & H0 & H1 & H1' & H2). exists p0, o0, p1, o1.
+  split; [assumption|]. split; [now apply is_prefix_snoc|]. split; [now apply is_prefix_snoc|assumption].
+Qed.
+Lemma pending_prefix_snoc ops o p : pending_prefix ops p -> pending_prefix (ops ++ [o]) p.
+Proof. intros (p0 & H0 & H1). exists p0. split; [now apply is_prefix_snoc|assumption]. Qed.
+
+Lemma pinv_step ops st o : pinv ops st -> pinv (ops ++ [o]) (step st o).
+Proof.
+  intros [Hh Hp Hm Hpd Hsd Hr].
+  assert (Hh' : Forall (holds_prefix (ops ++ [o])) (handlers st)).
+  { eapply Forall_impl; [|exact Hh]. intros a. apply holds_prefix_snoc. }
+  assert (Hp' : Forall (pending_prefix (ops ++ [o])) (pending st)).
+  { eapply Forall_impl; [|exact Hp]. intros a. apply pending_prefix_snoc. }
+  assert (Er : forall o', regs_of (ops ++ [o']) = regs_of ops ++ regs_of [o']) by (intros; apply flat_map_app).
+  assert (Epd : forall o', pdecs_of (ops ++ [o']) = pdecs_of ops ++ pdecs_of [o']) by (intros; apply flat_map_app).
+  assert (Esd : forall o', sdecs_of (ops ++ [o']) = sdecs_of ops ++ sdecs_of [o']) by (intros; apply flat_map_app).
+  assert (Hsame : forall o', regs_of [o'] = [] -> pdecs_of [o'] = [] -> sdecs_of [o'] = [] ->
+             pinv (ops ++ [o']) st -> True) by (intros; exact I).
+  assert (Hkeep : regs_of [o] = [] -> pdecs_of [o] = [] -> sdecs_of [o] = [] ->
+                  forall pf, pinv (ops ++ [o]) (RS (handlers st) (mws st) (pubdecs st) (subdecs st) pf (residue st) (pending st))).
+  { intros E1 E2 E3 pf. split; simpl; try assumption.
+    - now rewrite Er, E1, app_nil_r. - now rewrite Epd, E2, app_nil_r. - now rewrite Esd, E3, app_nil_r. }
+  assert (Hst : regs_of [o] = [] -> pdecs_of [o] = [] -> sdecs_of [o] = [] -> pinv (ops ++ [o]) st).
+  { intros E1 E2 E3. destruct st. apply (Hkeep E1 E2 E3). }
+  destruct o as [h|id app|hn id app|dd ff|dd ff| | |pn|sn|dl]; simpl.
+  - destruct (find_handler (h_name h) st); [now apply Hst|].
+    split; simpl; try assumption; [|now rewrite Er, app_nil_r|now rewrite Epd, app_nil_r|now rewrite Esd, app_nil_r].
+    apply Forall_app. split; [assumption|]. constructor; [|constructor]. split; [|exact I].
+    apply in_or_app. right. now left.
+  - split; simpl; try assumption; [now rewrite Er, Hm|now rewrite Epd, app_nil_r|now rewrite Esd, app_nil_r].
+  - split; simpl; try assumption; [now rewrite Er, Hm|now rewrite Epd, app_nil_r|now rewrite Esd, app_nil_r].
+  - split; simpl; try assumption; [now rewrite Er, app_nil_r|now rewrite Epd, Hpd|now rewrite Esd, app_nil_r].
+  - split; simpl; try assumption; [now rewrite Er, app_nil_r|now rewrite Epd, app_nil_r|now rewrite Esd, Hsd].
+  - (* Start *)
+    destruct (first_unstarted st); [|now apply Hst].
+    destruct (first_failing st (rev (pubdecs st))); [now apply Hkeep|].
+    destruct (first_failing st (subdecs st)); [now apply Hkeep|].
+    split; simpl; try assumption; try reflexivity;
+      [|now rewrite Er, app_nil_r|now rewrite Epd, app_nil_r|now rewrite Esd, app_nil_r].
+    apply Forall_forall. intros x Hx. apply in_map_iff in Hx as (hs & <- & Hin).
+    rewrite Forall_forall in Hh'. specialize (Hh' hs Hin). unfold start_one.
+    destruct (waiting st hs); [|assumption]. destruct Hh' as [Hadd _]. split; [exact Hadd|]. simpl.
+    exists ops, OStart, ops, OStart. unfold residue_of. rewrite Hr. simpl. rewrite app_nil_r.
+    repeat split; try apply is_prefix_refl; try assumption; now left.
+  - (* StartAsync *)
+    destruct (first_unstarted st); [|now apply Hst].
+    destruct (first_failing st (rev (pubdecs st))); [now apply Hkeep|].
+    destruct (first_failing st (subdecs st)); [now apply Hkeep|].
+    split; simpl; try assumption; try reflexivity;
+      [|now rewrite Er, app_nil_r|now rewrite Epd, app_nil_r|now rewrite Esd, app_nil_r].
+    apply Forall_app. split; [assumption|]. apply Forall_forall. intros x Hx.
+    apply in_map_iff in Hx as (hs & <- & _). exists ops. split; [apply is_prefix_refl|].
+    simpl. unfold frozen_decs, residue_of. rewrite Hr. simpl. now rewrite app_nil_r, Hpd, Hsd.
+  - (* Snap *)
+    destruct (pending_of st pn) as [decs|] eqn:P; [|now apply Hst].
+    assert (Hd : exists pre0, is_prefix (pre0 ++ [OStartAsync]) ops /\ decs = (pdecs_of pre0, sdecs_of pre0)).
+    { unfold pending_of in P. destruct (find (fun p => N.eqb (fst p) pn) (pending st)) eqn:F; [|discriminate].
+      injection P as <-. apply find_some in F as [Hin _]. rewrite Forall_forall in Hp. now apply Hp. }
+    destruct Hd as (pre0 & Hpre0 & ->).
+    split; simpl; try assumption; [| |now rewrite Er, app_nil_r|now rewrite Epd, app_nil_r|now rewrite Esd, app_nil_r].
+    + apply Forall_forall. intros x Hx. apply in_map_iff in Hx as (hs & <- & Hin).
+      rewrite Forall_forall in Hh'. specialize (Hh' hs Hin). unfold snap_one.
+      destruct (name_is pn hs && unstarted hs) eqn:En; [|assumption]. destruct Hh' as [Hadd _]. split; [exact Hadd|]. simpl.
+      apply andb_true_iff in En as [En _]. apply N.eqb_eq in En.
+      exists pre0, OStartAsync, ops, (OSnap pn). rewrite En.
+      repeat split; try assumption; try reflexivity; try (now right); try apply is_prefix_refl.
+      * destruct Hpre0 as [suf ->]. exists ([OStartAsync] ++ suf). now rewrite <- app_assoc.
+      * now apply is_prefix_snoc.
+    + rewrite Forall_forall in *. intros x Hx. apply filter_In in Hx as [Hx _]. now apply Hp'.
+  - (* Stop *)
+    destruct (find_handler sn st) as [[c [s|]]|]; try (now apply Hst).
+    split; simpl; try assumption; [|now rewrite Er, app_nil_r|now rewrite Epd, app_nil_r|now rewrite Esd, app_nil_r].
+    rewrite Forall_forall in *. intros x Hx. apply filter_In in Hx as [Hx _]. now apply Hh'.
+  - now apply Hst.
+Qed.
+
+Theorem pinv_all ops : pinv ops (exec rinit ops).
+Proof.
+  induction ops as [|o ops IH] using rev_ind.
+  - split; try reflexivity; constructor.
+  - rewrite exec_snoc. now apply pinv_step.
+Qed.
+
+(** exported form *)
+Theorem started_holds_prefix ops n h s :
+  find_handler n (exec rinit ops) = Some (HS h (Some s)) ->
+  In (OAddHandler h) ops /\
+  exists pre0 o0 pre1 o1, is_prefix pre0 pre1 /\ is_prefix (pre0 ++ [o0]) ops /\ is_prefix (pre1 ++ [o1]) ops
+    /\ (o0 = OStart \/ o0 = OStartAsync) /\ (o1 = OStart \/ o1 = OSnap (h_name h))
+    /\ s_chain s = regs_of pre1 /\ s_pubdecs s = pdecs_of pre0 /\ s_subdecs s = sdecs_of pre0.
+Proof.
+  intros F. destruct (pinv_all ops) as [Hh _ _ _ _ _]. apply find_some in F as [Hin _].
+  rewrite Forall_forall in Hh. exact (Hh _ Hin).
+Qed.
+Theorem decorators_all ops :
+  pubdecs (exec rinit ops) = pdecs_of ops /\ subdecs (exec rinit ops) = sdecs_of ops.
+Proof. destruct (pinv_all ops) as [_ _ _ H1 H2 _]. now split. Qed.
